@@ -9,7 +9,8 @@ CONSTANT TraceFile, Strict
 Trace == ndJsonDeserialize(TraceFile)
 
 VARIABLES l,      \* next record to consume
-          exp     \* state the specification expects after the last consumed record
+          exp,    \* state the specification expects after the last consumed record
+          failed  \* the last consumed operation panicked / an observer was inconsistent on the real map
 \* m (from OrderedMap) = state OBSERVED on the real map after the last consumed record
 
 RankT == [k00 |-> 0, k01 |-> 1, k02 |-> 2, k03 |-> 3, k04 |-> 4, k05 |-> 5,
@@ -32,16 +33,17 @@ ApplyT(s, r) ==
     [] r.op = "filter"    -> FilterF(LAMBDA k, v : v = r.keep, s)
     [] r.op = "map"       -> MapF(LAMBDA k, v : IF k = r.k THEN 3 - v ELSE v, s)
 
-TInit == l = 1 /\ m = <<>> /\ exp = <<>>
+TInit == l = 1 /\ m = <<>> /\ exp = <<>> /\ failed = FALSE
 TNext == /\ l <= Len(Trace)
          /\ l' = l + 1
          /\ LET r == Trace[l] IN
-              IF r.ev = "reset" THEN m' = <<>> /\ exp' = <<>>
+              IF r.ev = "reset" THEN m' = <<>> /\ exp' = <<>> /\ failed' = FALSE
               ELSE /\ exp' = ApplyT(m, r)
-                   /\ m'   = IF r.failure = "" THEN FromPairs(r.post) ELSE <<"failed">>
-TSpec == TInit /\ [][TNext]_<<l, m, exp>>
+                   /\ failed' = (r.failure # "")
+                   /\ m'   = IF r.failure = "" THEN FromPairs(r.post) ELSE <<>>
+TSpec == TInit /\ [][TNext]_<<l, m, exp, failed>>
 
-StepOK == exp = m /\ NoDup(m)
+StepOK == ~failed /\ exp = m /\ NoDup(m)
 Verdict == StepOK \/ (~Strict /\ PrintT(<<"FAIL", l - 1>>))
 Done == l = Len(Trace) + 1 => PrintT(<<"CONSUMED", l - 1>>)
 ===============================================================================
